@@ -97,6 +97,15 @@ def _run(ctx, e2e):
         use_system = system != "triclinic" or bool(i % 2)
         ds = WF.gen_dataset(rng, system=system, nv=nv, data_class=data_class, lattice=bool((i // 2) % 2),
                             components="needed" if use_system else "all-nonzero", energy_class="noncubic" if i % 5 < 2 else "bm3")
+        # the rows of the static table (and of its lattice block) may be listed in any order: largest volume first (as the shipped
+        # files), smallest first, or unordered
+        row_cls = ["largest-first", "smallest-first", "largest-first", "unordered"][(i // 2) % 4]
+        if row_cls != "largest-first":
+            ro = numpy.arange(len(ds.static_volumes))[::-1] if row_cls == "smallest-first" else rng.permutation(len(ds.static_volumes))
+            ds.static_volumes = ds.static_volumes[ro].copy()
+            ds.table_gpa = ds.table_gpa[ro].copy()
+            if ds.lattice is not None:
+                ds.lattice = ds.lattice[ro].copy()
         cfg = WF.gen_settings(rng, ds, interpolator=interp, order=order, use_system=use_system,
                               tmin=float(rng.choice([0, 0, 10, 300])), dt=float(rng.choice([2, 50, 100, 500])))
         if data_class == "generic":
@@ -110,7 +119,7 @@ def _run(ctx, e2e):
             cfg["qha"]["input"], cfg["elast"]["input"] = "phonons.dat", "static/elast.txt"
         elif i % 4 == 2:
             cfg["qha"]["input"], cfg["elast"]["input"] = "data/input01", "data/input02"
-        cls = f"{system}|{'lattice' if ds.lattice is not None else 'no-lattice'}|{interp}"
+        cls = f"{system}|{'lattice' if ds.lattice is not None else 'no-lattice'}|{interp}|static-rows:{row_cls}"
         sample = {"system": system if use_system else None, "interpolator": interp, "order": order, "volumes": nv, "nq": ds.nq, "atoms": ds.natoms,
                   "lattice_block": ds.lattice is not None, "components_in_table": ["c%d%d" % T.VOIGT21[c] for c in ds.columns], "data": data_class,
                   "grid": {k: cfg["qha"]["settings"][k] for k in ("NT", "DT", "T_MIN", "NTV", "volume_ratio")}}
